@@ -5,4 +5,5 @@ CONSTANTS
   FullRanks <- FullThorough
 INVARIANT DesignOK
 INVARIANT DeviationsExplain
+INVARIANT Emit
 CHECK_DEADLOCK FALSE
